@@ -19,6 +19,15 @@ pub const ALL: &[(&str, H)] = &[
     ("h_transcript::hashable_read_g1_checked", crate::h_transcript::hashable_read_g1_checked),
     ("h_transcript::serde_read_g1_processed_checked", crate::h_transcript::serde_read_g1_processed_checked),
     ("h_transcript::guard_batch_verify_lengths", crate::h_transcript::guard_batch_verify_lengths),
+    ("h_roundtrip::vk_read_then_write_processed", crate::h_roundtrip::vk_read_then_write_processed),
+    ("h_roundtrip::vk_read_then_write_rawbytes", crate::h_roundtrip::vk_read_then_write_rawbytes),
+    ("h_roundtrip::vk_write_then_read_processed", crate::h_roundtrip::vk_write_then_read_processed),
+    ("h_roundtrip::vk_write_then_read_rawbytes", crate::h_roundtrip::vk_write_then_read_rawbytes),
+    ("h_roundtrip::vk_bytes_length_processed", crate::h_roundtrip::vk_bytes_length_processed),
+    ("h_roundtrip::vk_bytes_length_rawbytes", crate::h_roundtrip::vk_bytes_length_rawbytes),
+    ("h_roundtrip::arch_read_then_write", crate::h_roundtrip::arch_read_then_write),
+    ("h_roundtrip::arch_write_then_read", crate::h_roundtrip::arch_write_then_read),
+    ("h_roundtrip::vk_transcript_binds_written_rawbytes", crate::h_roundtrip::vk_transcript_binds_written_rawbytes),
 ];
 pub fn lookup(name: &str) -> Option<H> {
     ALL.iter().chain(crate::h_zkir::ARITY_HARNESSES.iter()).find(|(n, _)| *n == name).map(|(_, f)| *f)
